@@ -626,6 +626,10 @@ def run(rep):
               'queryAdapter(object, provided) runs the same worker',
               construct='same-worker', node=q)
 
+    # the verifying registry's two entries (the hook and queryAdapter) run the
+    # same generation check before the same worker, so they answer alike
+    cside.verify_first(rep, u, rule='R14.6', only=('adapter_hook', 'queryAdapter'))
+
     # ---- R14.7 ---------------------------------------------------------------
     from . import csem as _csem
     _csem.hook_walk(rep, 'R14.7', u)
